@@ -91,7 +91,47 @@ Section Guarded.
   (* the positions at which the text is known to be well-formed (character boundaries); everything below is relative
      to states at such positions, and needs the functions involved to stay among them *)
   Variable okp : nat -> Prop.
-  Definition oks (x : mst) : Prop := okp (fst x).
+  (* a state is well-formed when its position is, and so is every position recorded in its capture slots *)
+  Definition gdok (gd : groupdata) : Prop :=
+    (forall p, gd_start gd = Some p -> okp p) /\ (forall p, gd_end gd = Some p -> okp p).
+  Definition gok (G : list groupdata) : Prop := Forall gdok G.
+  Definition oks (x : mst) : Prop := okp (fst x) /\ gok (snd x).
+
+  Lemma oks_move q G q' : oks (q, G) -> okp q' -> oks (q', G).
+  Proof. intros [_ HG] Hq. split; assumption. Qed.
+
+  Lemma gdok_empty : gdok gd_empty.
+  Proof. split; intros p E; discriminate E. Qed.
+
+  Lemma gok_set_nth : forall G g gd, gok G -> gdok gd -> gok (set_nth g gd G).
+  Proof.
+    induction G as [|x G IH]; intros g gd HG Hgd; [destruct g; constructor|]. inversion HG; subst.
+    destruct g as [|g]; cbn [set_nth]; constructor; auto. apply IH; assumption.
+  Qed.
+
+  Lemma gok_upd g f G G' : upd_group g f G = Some G' -> gok G -> (forall gd, gdok gd -> gdok (f gd)) -> gok G'.
+  Proof.
+    unfold upd_group. intros E HG Hf. destruct (nth_error G g) as [gd|] eqn:En; [|discriminate]. inversion E; subst.
+    apply gok_set_nth; [exact HG|]. apply Hf. unfold gok in HG. rewrite Forall_forall in HG. apply HG. eapply nth_error_In; eauto.
+  Qed.
+
+  Lemma gok_reset : forall n G lo G', reset_groups G lo n = Some G' -> gok G -> gok G'.
+  Proof.
+    induction n as [|n IH]; intros G lo G' E HG; cbn [reset_groups] in E; [inversion E; subst; exact HG|].
+    destruct (upd_group lo (fun _ => gd_empty) G) as [G1|] eqn:E1; [|discriminate].
+    eapply IH; [exact E|]. eapply gok_upd; [exact E1|exact HG|]. intros gd _. apply gdok_empty.
+  Qed.
+
+  Lemma gdok_start fwd p gd : okp p -> gdok gd -> gdok (set_group_start fwd p gd).
+  Proof.
+    intros Hp [H1 H2]. unfold set_group_start. destruct fwd; split; cbn [gd_start gd_end]; intros q E;
+      try (inversion E; subst; exact Hp); auto.
+  Qed.
+  Lemma gdok_end fwd p gd : okp p -> gdok gd -> gdok (set_group_end fwd p gd).
+  Proof.
+    intros Hp [H1 H2]. unfold set_group_end. destruct fwd; split; cbn [gd_start gd_end]; intros q E;
+      try (inversion E; subst; exact Hp); auto.
+  Qed.
   Definition okl (l : list mst) : Prop := Forall oks l.
   Definition clo (f : mst -> option (list mst)) : Prop := forall x r, oks x -> f x = Some r -> okl r.
   Definition frelO := @frelP mst oks.
@@ -144,10 +184,11 @@ Section Guarded.
                    | Some zs => obindm (loop_results bodyf mn mx gr egs ege lf (k + 1) (fst y)) zs
                    end
       end = Some it -> okl it).
-    { intros it Ei. destruct (reset_groups (snd y) egs (ege - egs)) as [g1|]; [|discriminate].
+    { intros it Ei. destruct (reset_groups (snd y) egs (ege - egs)) as [g1|] eqn:Er; [|discriminate].
       destruct (bodyf (fst y, g1)) as [zs|] eqn:Ez; [|discriminate].
-      assert (Hz : okl zs) by (eapply Hb; [|exact Ez]; exact Hy).
-      eapply (obindm_okl oks); [|exact Hz|exact Ei]. intros x r0 Hx Er. eapply IH; eauto. }
+      assert (Hyy : oks (fst y, g1)) by (split; [exact (proj1 Hy)|eapply gok_reset; [exact Er|exact (proj2 Hy)]]).
+      assert (Hz : okl zs) by (eapply Hb; [|exact Ez]; exact Hyy).
+      eapply (obindm_okl oks); [|exact Hz|exact Ei]. intros x r0 Hx Er0. eapply IH; eauto. }
     destruct (negb (k <? max_val mx) && negb (mn <=? k)); [inversion E; constructor|].
     destruct (negb (k <? max_val mx)); [inversion E; subst; constructor; [exact Hy|constructor]|].
     destruct (negb (mn <=? k)); [apply Hit; exact E|].
@@ -179,9 +220,9 @@ Section Guarded.
                    | Some zs => obindm (loop_results bodyf' mn mx gr egs ege lf' (k + 1) (fst y)) zs
                    end
       end = Some it' /\ dd it it').
-    { intros it Ei. destruct (reset_groups (snd y) egs (ege - egs)) as [g1|]; [|discriminate].
+    { intros it Ei. destruct (reset_groups (snd y) egs (ege - egs)) as [g1|] eqn:Er; [|discriminate].
       destruct (bodyf (fst y, g1)) as [zs|] eqn:Ez; [|discriminate].
-      assert (Hyy : oks (fst y, g1)) by exact Hy.
+      assert (Hyy : oks (fst y, g1)) by (split; [exact (proj1 Hy)|eapply gok_reset; [exact Er|exact (proj2 Hy)]]).
       destruct (Hb _ _ Hyy Ez) as [zs' [Ez' Dz]]. rewrite Ez'.
       eapply (obindm_frelP oks); [|eapply Hcl; [exact Hyy|exact Ez]|exact Dz|exact Ei]. apply IH. lia. }
     destruct (negb (k <? max_val mx) && negb (mn <=? k)); [exists r; split; [exact E|apply dd_refl]|].
@@ -192,18 +233,19 @@ Section Guarded.
     eexists. split; [reflexivity|]. destruct gr; [apply dd_app; [exact Di|apply dd_refl]|apply dd_cons; exact Di].
   Qed.
 
-  Lemma l1_okl (s : nat -> option (option nat)) chk gs mn mx gr : sclo s ->
+  Lemma l1_okl (s : nat -> option (option nat)) chk gs mn mx gr : sclo s -> gok gs ->
     forall lf k q r, okp q -> l1_results s chk gs mn mx gr lf k q = Some r -> okl r.
   Proof.
-    intro Hs. induction lf as [|lf IH]; intros k q r Hq E; [discriminate|]. cbn [l1_results] in E.
+    intros Hs Hg. induction lf as [|lf IH]; intros k q r Hq E; [discriminate|]. cbn [l1_results] in E.
+    assert (Hqg : oks (q, gs)) by (split; assumption).
     destruct (if k <? max_val mx then s q else Some None) as [[q'|]|] eqn:Et; try discriminate.
     - destruct (chk q q'); [|discriminate].
       destruct (l1_results s chk gs mn mx gr lf (k + 1) q') as [it|] eqn:Ei; [|discriminate].
       assert (Hq' : okp q') by (destruct (k <? max_val mx); [eapply Hs; eauto|discriminate]).
       pose proof (IH (k + 1) q' it Hq' Ei) as Hi. inversion E; subst.
       destruct (mn <=? k); [|exact Hi].
-      destruct gr; [apply Forall_app; split; [exact Hi|constructor; [exact Hq|constructor]]|constructor; [exact Hq|exact Hi]].
-    - inversion E; subst. destruct (mn <=? k); [constructor; [exact Hq|constructor]|constructor].
+      destruct gr; [apply Forall_app; split; [exact Hi|constructor; [exact Hqg|constructor]]|constructor; [exact Hqg|exact Hi]].
+    - inversion E; subst. destruct (mn <=? k); [constructor; [exact Hqg|constructor]|constructor].
   Qed.
 
   Lemma l1_fleO (s s' : nat -> option (option nat)) chk gs mn mx gr : fleO s s' -> sclo s ->
@@ -259,6 +301,7 @@ Section Mono.
   (* ---- the positions at which the text is well-formed, and nodes that stay among them ---- *)
   Variable okp : nat -> Prop.
   Notation oks := (oks okp).
+  Notation gok := (gok okp).
   Notation okl := (okl okp).
   Notation clo := (clo okp).
   Notation frelO := (frelO okp).
@@ -307,30 +350,30 @@ Section Mono.
       destruct (IR f b fwd (p, G)) as [v|] eqn:Ev; [|discriminate]. inversion E; subst.
       apply Forall_app. split; [eapply (IHf a fwd (proj1 Ha)); eauto|eapply (IHf b fwd (proj2 Ha)); eauto].
     - (* CaptureGroup *)
-      destruct (upd_group id (set_group_start fwd p) G) as [G1|]; [|discriminate].
+      destruct (upd_group id (set_group_start fwd p) G) as [G1|] eqn:Eg1; [|discriminate].
       destruct (IR f c fwd (p, G1)) as [lc|] eqn:Ec; [|discriminate].
-      assert (Hlc : okl lc) by (eapply (IHf c fwd Ha); [|exact Ec]; exact Hx).
+      assert (Hx1 : oks (p, G1)).
+      { split; [exact (proj1 Hx)|]. eapply (gok_upd okp); [exact Eg1|exact (proj2 Hx)|]. intros gd Hgd. apply gdok_start; [exact (proj1 Hx)|exact Hgd]. }
+      assert (Hlc : okl lc) by (eapply (IHf c fwd Ha); [|exact Ec]; exact Hx1).
       eapply (obindm_okl okp oks); [|exact Hlc|exact E].
-      intros y r0 Hy Er. cbn beta in Er. destruct (upd_group id (set_group_end fwd (fst y)) (snd y)); [|discriminate Er].
-      inversion Er; subst. constructor; [exact Hy|constructor].
+      intros y r0 Hy Er. cbn beta in Er. destruct (upd_group id (set_group_end fwd (fst y)) (snd y)) as [g2|] eqn:Eg2; [|discriminate Er].
+      inversion Er; subst. constructor; [|constructor]. split; [exact (proj1 Hy)|].
+      eapply (gok_upd okp); [exact Eg2|exact (proj2 Hy)|]. intros gd Hgd. apply gdok_end; [exact (proj1 Hy)|exact Hgd].
     - (* Lookaround *)
-      destruct (IR f c (negb bw) (p, G)) as [[|y lc]|]; [| |discriminate]; inversion E; subst;
-        destruct ng; constructor; try constructor; exact Hx.
+      destruct (IR f c (negb bw) (p, G)) as [[|y lc]|] eqn:Ec; [| |discriminate].
+      + inversion E; subst. destruct ng; [constructor; [exact Hx|constructor]|constructor].
+      + inversion E; subst. destruct ng; [constructor|].
+        pose proof (IHf c (negb bw) Ha (p, G) (y :: lc) Hx Ec) as Hc. inversion Hc as [|y0 l0 Hy _]; subst.
+        constructor; [|constructor]. split; [exact (proj1 Hx)|exact (proj2 Hy)].
     - (* Loop *) eapply (loop_okl okp); [|exact Hx|exact E]. apply IHf. exact Ha.
     - (* Loop1CharBody *)
       destruct (single_step ix unicode h (negb fwd) body fwd) as [s|] eqn:Es; [|discriminate].
-      eapply (l1_okl okp); [eapply al_step; eauto|exact Hx|exact E].
+      eapply (l1_okl okp); [eapply al_step; eauto|exact (proj2 Hx)|exact (proj1 Hx)|exact E].
   Qed.
 
   (* ---- the refinement relation ---- *)
-  (* the fuel stays below usize::MAX: iteration counts of the model are unbounded numbers, those of the code are
-     usize; no run shorter than 2^64 steps can tell them apart *)
-  Definition fuel_ok (f : nat) : Prop := N.of_nat f < USIZE_MAX.
-  Lemma fuel_ok_le f f' : (f <= f')%nat -> fuel_ok f' -> fuel_ok f.
-  Proof. unfold fuel_ok. lia. Qed.
-
   Definition rres (fwd : bool) (n n' : node) : Prop :=
-    exists K, forall f, fuel_ok (f + K) -> frelO (IR f n fwd) (IR (f + K) n' fwd).
+    exists K, forall f, frelO (IR f n fwd) (IR (f + K) n' fwd).
   (* the reading of a node as the body of a one-character loop *)
   Definition rstep (fwd : bool) (n n' : node) : Prop :=
     l1_body_ok n = true ->
@@ -342,26 +385,24 @@ Section Mono.
   Lemma ref_refl fwd n : ref fwd n n.
   Proof.
     split.
-    - exists 0%nat. intros f _. rewrite Nat.add_0_r. apply frelP_refl.
+    - exists 0%nat. intro f. rewrite Nat.add_0_r. apply frelP_refl.
     - intro Hl. split; [exact Hl|]. intros s Es. exists s. split; [exact Es|apply fleO_refl].
   Qed.
 
   Lemma ref_trans fwd a b c : ref fwd a b -> ref fwd b c -> ref fwd a c.
   Proof.
     intros [[K1 H1] S1] [[K2 H2] S2]. split.
-    - exists (K1 + K2)%nat. intros f Hf. rewrite Nat.add_assoc in *.
-      eapply frelP_trans; [apply H1; eapply fuel_ok_le; [|exact Hf]; lia|apply H2; exact Hf].
+    - exists (K1 + K2)%nat. intro f. rewrite Nat.add_assoc. eapply frelP_trans; [apply H1|apply H2].
     - intro Hl. destruct (S1 Hl) as [Hl1 T1]. destruct (S2 Hl1) as [Hl2 T2]. split; [exact Hl2|].
       intros s Es. destruct (T1 s Es) as [s1 [E1 L1]]. destruct (T2 s1 E1) as [s2 [E2 L2]].
       exists s2. split; [exact E2|eapply fleO_trans; eauto].
   Qed.
 
   (* rres with more slack *)
-  Lemma rres_at fwd n n' K : (forall f, fuel_ok (f + K) -> frelO (IR f n fwd) (IR (f + K) n' fwd)) ->
-    forall K', (K <= K')%nat -> forall f, fuel_ok (f + K') -> frelO (IR f n fwd) (IR (f + K') n' fwd).
+  Lemma rres_at fwd n n' K : (forall f, frelO (IR f n fwd) (IR (f + K) n' fwd)) ->
+    forall K', (K <= K')%nat -> forall f, frelO (IR f n fwd) (IR (f + K') n' fwd).
   Proof.
-    intros H K' Hle f Hf. eapply frelP_trans; [apply H; eapply fuel_ok_le; [|exact Hf]; lia|].
-    apply fle_frelP. apply ir_fuel_mono. lia.
+    intros H K' Hle f. eapply frelP_trans; [apply H|]. apply fle_frelP. apply ir_fuel_mono. lia.
   Qed.
 
   (* a node that is not a one-character leaf has no obligation as a loop body *)
@@ -369,7 +410,7 @@ Section Mono.
   Proof. intros Hn Hl. rewrite Hn in Hl. discriminate. Qed.
 
   Lemma forall2_slack fwd : forall l l', Forall2 (rres fwd) l l' ->
-    exists K, Forall2 (fun c c' => forall f, fuel_ok (f + K) -> frelO (IR f c fwd) (IR (f + K) c' fwd)) l l'.
+    exists K, Forall2 (fun c c' => forall f, frelO (IR f c fwd) (IR (f + K) c' fwd)) l l'.
   Proof.
     induction 1 as [|c c' l l' [K1 H1] Hl [K2 IH]]; [exists 0%nat; constructor|].
     exists (Nat.max K1 K2). constructor.
@@ -385,35 +426,35 @@ Section Mono.
   Proof.
     intros Hal HF. split; [|apply rstep_nol1; reflexivity].
     assert (HF' : Forall2 (rres fwd) l l') by (eapply Forall2_imp; [|exact HF]; intros a b [Hab _]; exact Hab).
-    destruct (forall2_slack fwd l l' HF') as [K HK]. exists K. intros [|f] Hf [p G] r Hx E; [discriminate|].
-    assert (Hf' : fuel_ok (f + K)) by (eapply fuel_ok_le; [|exact Hf]; lia).
+    destruct (forall2_slack fwd l l' HF') as [K HK]. exists K. intros [|f] [p G] r Hx E; [discriminate|].
     cbn [Nat.add ir_results] in *.
     eapply (cat_frelO okp); [|constructor; [exact Hx|constructor]|apply dd_refl|exact E].
     eapply Forall2_imp; [|apply (Forall2_and_left _ al _ _ HK Hal)].
-    intros a b [Hab Ha]. split; [apply Hab; exact Hf'|apply closed_al; exact Ha].
+    intros a b [Hab Ha]. split; [apply Hab|apply closed_al; exact Ha].
   Qed.
 
   Lemma ref_alt fwd a a' b b' : ref fwd a a' -> ref fwd b b' -> ref fwd (NAlt a b) (NAlt a' b').
   Proof.
     intros [[K1 H1] _] [[K2 H2] _]. split; [|apply rstep_nol1; reflexivity].
-    exists (Nat.max K1 K2). intros [|f] Hf [p G] r Hx E; [discriminate|].
-    assert (Hf' : fuel_ok (f + Nat.max K1 K2)) by (eapply fuel_ok_le; [|exact Hf]; lia). cbn [Nat.add ir_results] in *.
+    exists (Nat.max K1 K2). intros [|f] [p G] r Hx E; [discriminate|].
+    cbn [Nat.add ir_results] in *.
     destruct (IR f a fwd (p, G)) as [u|] eqn:Eu; [|discriminate].
     destruct (IR f b fwd (p, G)) as [v|] eqn:Ev; [|discriminate].
-    destruct (rres_at fwd a a' K1 H1 (Nat.max K1 K2) ltac:(lia) f Hf' _ _ Hx Eu) as [u' [Eu' Du]].
-    destruct (rres_at fwd b b' K2 H2 (Nat.max K1 K2) ltac:(lia) f Hf' _ _ Hx Ev) as [v' [Ev' Dv]].
+    destruct (rres_at fwd a a' K1 H1 (Nat.max K1 K2) ltac:(lia) f _ _ Hx Eu) as [u' [Eu' Du]].
+    destruct (rres_at fwd b b' K2 H2 (Nat.max K1 K2) ltac:(lia) f _ _ Hx Ev) as [v' [Ev' Dv]].
     rewrite Eu', Ev'. inversion E; subst. eexists. split; [reflexivity|apply dd_app; assumption].
   Qed.
 
   Lemma ref_cg fwd id nm c c' : al c -> ref fwd c c' -> ref fwd (NCaptureGroup id c nm) (NCaptureGroup id c' nm).
   Proof.
     intros Ha [[K H1] _]. split; [|apply rstep_nol1; reflexivity].
-    exists K. intros [|f] Hf [p G] r Hx E; [discriminate|].
-    assert (Hf' : fuel_ok (f + K)) by (eapply fuel_ok_le; [|exact Hf]; lia). cbn [Nat.add ir_results] in *.
-    destruct (upd_group id (set_group_start fwd p) G) as [G1|]; [|discriminate].
+    exists K. intros [|f] [p G] r Hx E; [discriminate|].
+    cbn [Nat.add ir_results] in *.
+    destruct (upd_group id (set_group_start fwd p) G) as [G1|] eqn:Eg1; [|discriminate].
     destruct (IR f c fwd (p, G1)) as [lc|] eqn:Ec; [|discriminate].
-    assert (Hx1 : oks (p, G1)) by exact Hx.
-    destruct (H1 f Hf' _ _ Hx1 Ec) as [lc' [Ec' Dc]]. rewrite Ec'.
+    assert (Hx1 : oks (p, G1)).
+    { split; [exact (proj1 Hx)|]. eapply (gok_upd okp); [exact Eg1|exact (proj2 Hx)|]. intros gd Hgd. apply gdok_start; [exact (proj1 Hx)|exact Hgd]. }
+    destruct (H1 f _ _ Hx1 Ec) as [lc' [Ec' Dc]]. rewrite Ec'.
     eapply (obindm_frelP oks); [apply frelP_refl|eapply closed_al; [exact Ha|exact Hx1|exact Ec]|exact Dc|exact E].
   Qed.
 
@@ -421,10 +462,10 @@ Section Mono.
     ref fwd (NLookaround ng bw sg eg c) (NLookaround ng bw sg eg c').
   Proof.
     intros [[K H1] _]. split; [|apply rstep_nol1; reflexivity].
-    exists K. intros [|f] Hf [p G] r Hx E; [discriminate|].
-    assert (Hf' : fuel_ok (f + K)) by (eapply fuel_ok_le; [|exact Hf]; lia). cbn [Nat.add ir_results] in *.
+    exists K. intros [|f] [p G] r Hx E; [discriminate|].
+    cbn [Nat.add ir_results] in *.
     destruct (IR f c (negb bw) (p, G)) as [lc|] eqn:Ec; [|discriminate].
-    destruct (H1 f Hf' _ _ Hx Ec) as [lc' [Ec' Dc]]. rewrite Ec'. pose proof (dd_head _ _ Dc) as Hh.
+    destruct (H1 f _ _ Hx Ec) as [lc' [Ec' Dc]]. rewrite Ec'. pose proof (dd_head _ _ Dc) as Hh.
     exists r. split; [|apply dd_refl].
     destruct lc as [|y lc]; destruct lc' as [|y' lc']; try contradiction; [exact E|subst y'; exact E].
   Qed.
@@ -433,19 +474,19 @@ Section Mono.
     ref fwd (NLoop body mn mx gr egs ege) (NLoop body' mn mx gr egs ege).
   Proof.
     intros Ha [[K H1] _]. split; [|apply rstep_nol1; reflexivity].
-    exists K. intros [|f] Hf [p G] r Hx E; [discriminate|].
-    assert (Hf' : fuel_ok (f + K)) by (eapply fuel_ok_le; [|exact Hf]; lia). cbn [Nat.add ir_results] in *.
-    eapply (loop_frelO okp); [apply H1; exact Hf'|apply closed_al; exact Ha| |exact Hx|exact E]. lia.
+    exists K. intros [|f] [p G] r Hx E; [discriminate|].
+    cbn [Nat.add ir_results] in *.
+    eapply (loop_frelO okp); [apply H1|apply closed_al; exact Ha| |exact Hx|exact E]. lia.
   Qed.
 
   Lemma ref_l1 fwd body body' mn mx gr : l1_body_ok body = true -> al body -> ref fwd body body' ->
     ref fwd (NLoop1CharBody body mn mx gr) (NLoop1CharBody body' mn mx gr).
   Proof.
     intros Hl Ha [_ S1]. split; [|apply rstep_nol1; reflexivity].
-    exists 0%nat. intros [|f] Hf [p G] r Hx E; [discriminate|]. rewrite Nat.add_0_r. cbn [ir_results] in *.
+    exists 0%nat. intros [|f] [p G] r Hx E; [discriminate|]. rewrite Nat.add_0_r. cbn [ir_results] in *.
     destruct (single_step ix unicode h (negb fwd) body fwd) as [s|] eqn:Es; [|discriminate].
     destruct (S1 Hl) as [_ T1]. destruct (T1 s Es) as [s2 [Es2 Hss]]. rewrite Es2.
     exists r. split; [|apply dd_refl].
-    eapply (l1_fleO okp); [exact Hss|eapply al_step; eauto| |exact Hx|exact E]. lia.
+    eapply (l1_fleO okp); [exact Hss|eapply al_step; eauto| |exact (proj1 Hx)|exact E]. lia.
   Qed.
 End Mono.
